@@ -284,6 +284,12 @@ def r4_write_loop_covers_all(chk):
     back = [x for x in reach if any(m is head for m, l in x.succ)]
     chk.ob('C09.R4', 'compile/write-loop-no-skip', not back, where(r.mod, loop),
            'an iteration can finish without putData (via line %s)' % (back[0].lineno if back else ''))
+    # the switch reads options.get('writeMibs', <truthy default>) in positive position
+    reads = [x for n in switch for x in cr.option_reads(n.expr, opt, 'writeMibs')]
+    ok = len(reads) == 1 and reads[0][0] is True and isinstance(reads[0][1], ast.Constant) and bool(reads[0][1].value)
+    chk.ob('C09.R4', 'compile/writeMibs-switch-polarity', ok, where(r.mod, switch[0].ast) if switch else where(r.mod, loop),
+           'modules are written when writeMibs is on (the default): the guard must be the un-negated read '
+           '%s.get(\'writeMibs\', True); found %s' % (opt, [norm(n.expr) for n in switch]))
     # writeMibs default must be truthy
     for n in switch:
         for c in ast.walk(n.expr):
